@@ -113,6 +113,19 @@ def run(ctx):
             if written or out.split(" ")[0] in ("res=b1", "res=b0", "res=none") or out.startswith("res=s:"):
                 viol.append({"op": op, "args": ascii(args), "written_hex": written.hex(),
                              "what": "an argument that cannot be encoded as UTF-8 was not refused: %s, %d bytes written %r" % (out.split(" ")[0], len(written), written[:60])})
+            # … and the refused call leaves nothing behind: the next call on the same client writes its own command, whole and alone
+            nw = len(s.wire.writes)
+            fop, fargs = r.choice([("deletescript", ('q"uote',)), ("putscript", ("two", "keep;\r\n")), ("havespace", ("n", 7)), ("setactive", ("",))])
+            s.op(fop, *fargs, stream=b"OK\r\n", sched=[])
+            evals += 1
+            follow = b"".join(b for t, b in s.wire.writes[nw:])
+            try:
+                got = refserver.decode_commands(follow)
+            except refserver.ProtocolViolation as e:
+                got = "not well-formed: %s" % e
+            if got != expected(fop, fargs):
+                viol.append({"op": fop, "args": ascii(fargs), "history": "%s%s refused just before on the same client" % (op, ascii(args)), "written_hex": follow.hex(),
+                             "what": "after a refused call the next command on the wire is %r, caller asked for %r" % (got if isinstance(got, str) else got, expected(fop, fargs))})
     # the Lean strict decoder (the one the theorem is about) and the Python strict decoder (the oracle) must agree
     dec_inputs = list(all_written)
     for _ in range(300):
